@@ -22,7 +22,7 @@ META = {
                         "series: the real scan body of evaluate_lml (reached by substituting backend.flow.scan while tracing) "
                         "applied once to an arbitrary carry (arbitrary filtered marginal, arbitrary accumulated value, 2 or 3 "
                         "data points seen), sum and running mean",
-               "thorough": "as quick plus d=2 for the time-series loss"},
+               "thorough": "as quick plus d=2 for the isotropic time-series loss and further (count, mode) combinations of the inductive step"},
     "assumptions": ["A1 reals", "A2/A3 contracts", "log is uninterpreted; only sum_i w log|a_i| = (w/2) log prod a_i^2 is used: the "
                     "obligation splits into (i) the log-free part and (ii) equality of the products of the log arguments per "
                     "weight", "the 1x1 least-squares solve inside the time-series loss is division by a non-zero innovation "
@@ -48,8 +48,10 @@ def cases(tier):
         out.append(f"scanstep/{ssm}/i0/d1/n2/sum")
         out.append(f"scanstep/{ssm}/i1/d1/n3/avg")
     if tier == "thorough":
+        out.append("series/isotropic/i0/d2/k1/sum")     # dense / blockdiag d=2: not decided within 40 min
         for ssm in cm.SSMS:
-            out.append(f"series/{ssm}/i0/d2/k1/sum")
+            out.append(f"scanstep/{ssm}/i0/d1/n3/sum")
+            out.append(f"scanstep/{ssm}/i1/d1/n2/avg")
     return out
 
 
